@@ -627,6 +627,13 @@ class Engine(Interp):
         for a in args:
             if a[0] == 'ref' and a[1] and a[2][0] == 'pair':
                 mid, idx, sub = a[2][1], a[2][2], a[2][3]
+                if tuple(sub) in ((), (0,)):
+                    # a stored KEY (or the whole pair) is handed to user code by mutable reference: the
+                    # uniqueness discipline rests on stored keys never changing in place
+                    self.oblig('KEYMUT', False, 'user code gets &mut to a stored key',
+                               'a mutable reference to the key of slot %s of %s is passed to user code: stored keys '
+                               'must only ever be replaced as a whole by a key that compared equal' % (idx, mid),
+                               'refuted', props=['C05'])
                 kt, vt = slots.content(st, mid, idx)
                 if sub == (1,):
                     slots.set_content(st, mid, idx, (kt, ('usermod', vt)))
